@@ -1,6 +1,14 @@
 use crate::compiler::prelude::*;
 use std::collections::BTreeMap;
 
+fn non_boolean(value: &Value) -> ExpressionError {
+    ValueError::Expected {
+        got: value.kind(),
+        expected: Kind::boolean(),
+    }
+    .into()
+}
+
 fn filter<T>(value: Value, ctx: &mut Context, runner: &closure::Runner<T>) -> Resolved
 where
     T: Fn(&mut Context) -> Resolved,
@@ -10,10 +18,12 @@ where
             .into_iter()
             .filter_map(
                 |(key, value)| match runner.run_key_value(ctx, &key, &value) {
-                    Ok(v) => v
-                        .as_boolean()
-                        .expect("compiler guarantees boolean return type")
-                        .then_some(Ok((key, value))),
+                    // the closure's type is checked at compile time, but a `return` nested in
+                    // one of its expressions can still yield a value of another kind
+                    Ok(v) => match v.as_boolean() {
+                        Some(keep) => keep.then_some(Ok((key, value))),
+                        None => Some(Err(non_boolean(&v))),
+                    },
                     Err(err) => Some(Err(err)),
                 },
             )
@@ -25,10 +35,10 @@ where
             .enumerate()
             .filter_map(
                 |(index, value)| match runner.run_index_value(ctx, index, &value) {
-                    Ok(v) => v
-                        .as_boolean()
-                        .expect("compiler guarantees boolean return type")
-                        .then_some(Ok(value)),
+                    Ok(v) => match v.as_boolean() {
+                        Some(keep) => keep.then_some(Ok(value)),
+                        None => Some(Err(non_boolean(&v))),
+                    },
                     Err(err) => Some(Err(err)),
                 },
             )
